@@ -143,6 +143,9 @@ class Module:
             self.tree = ast.parse(self.src, filename=path)
         except SyntaxError as e:  # pragma: no cover
             raise AnalysisError(f"{relpath}: does not parse: {e}")
+        from .alpha import normalise
+
+        self.alpha_renamed = normalise(self.tree, relpath)
         self.functions: dict[str, FuncInfo] = {}
         self.classes: dict[str, ClassInfo] = {}
         self.imports: dict[str, str] = {}  # local alias -> dotted target
